@@ -6,6 +6,7 @@ import re
 import shutil
 import subprocess
 import sys
+import tempfile
 import time
 
 import common as C
@@ -31,9 +32,8 @@ def design_files(design):
 
 def regenerate():
     """Re-run the translator on $HEX_REPO into lean/HexVerif/Rtl/Gen.  Returns (ok, text)."""
-    work = os.path.join(C.BUILD, "sv2lean-work")
-    shutil.rmtree(work, ignore_errors=True)
-    os.makedirs(work, exist_ok=True)
+    os.makedirs(C.BUILD, exist_ok=True)
+    work = tempfile.mkdtemp(prefix="sv2lean-", dir=C.BUILD)
     try:
         r = C.sh([sys.executable, TRANSLATOR, "--repo", C.REPO, "--out", GEN_DIR, "--work", work], timeout=300)
     finally:
@@ -273,9 +273,20 @@ def gen_cases(r, per_byte_in, per_byte_any, nseq, seqlen):
             lines.append(step_case(r, byte, "in"))
         for _ in range(per_byte_any):
             lines.append(step_case(r, byte, "any"))
-    for _ in range(nseq):
-        lines.append(seq_case(r, seqlen))
-    return lines
+    # spread the (much more expensive) sequences evenly so that parallel chunks are balanced
+    seqs = [seq_case(r, seqlen) for _ in range(nseq)]
+    if not seqs:
+        return lines
+    out = []
+    every = max(1, len(lines) // len(seqs))
+    k = 0
+    for i, l in enumerate(lines):
+        out.append(l)
+        if (i + 1) % every == 0 and k < len(seqs):
+            out.append(seqs[k])
+            k += 1
+    out += seqs[k:]
+    return out
 
 
 def corpus(pid):
